@@ -47,6 +47,23 @@ QLoc    == {[k |-> "locator", a |-> 0, r |-> Locator]}
 QGetH   == {[k |-> "getheaders", a |-> [loc |-> SetToSeq(l), stop |-> s], r |-> GetHeaders(l, s, 2000)] :
               l \in LocSets, s \in {-1} \cup Ids}
 
+
+\* C17: export = the longest chain by height; import of the exported file, possibly corrupted in one row, with the newest
+\* checkpoint at height cp.  Rows are numbered by height (row 0 = genesis).  Verdict per the property: malformed rows, a
+\* missing checkpoint row, or a different hash at the checkpoint height refuse the import; anything else is accepted.
+Malformed == {"badnumber", "shortrow", "longrow", "badhash", "negativenonce"}
+Shifting  == {"changefield", "droprow", "duprow"}
+ImportVerdict(cp, corr, row) ==
+  IF corr = "none" THEN "accept"
+  ELSE IF corr \in Malformed THEN "refuse"
+  ELSE IF corr = "duprow" /\ row = cp THEN "accept"   \* the first copy still sits at the checkpoint height with the same hash
+  ELSE IF row <= cp THEN "refuse"            \* the hash at the checkpoint height changes (or the row is gone)
+  ELSE "accept"                              \* a self-consistent different chain above the checkpoint
+ExportIds == [h \in 1 .. TipH + 1 |-> IdAt(h - 1)]
+QExport == {[k |-> "export", a |-> 0, r |-> ExportIds]}
+QImport == {[k |-> "import", a |-> [cp |-> cp, corr |-> co, row |-> rw], r |-> ImportVerdict(cp, co, rw)] :
+              cp \in 1 .. TipH, co \in {"none"} \cup Malformed \cup Shifting, rw \in 0 .. TipH}
+
 \* one homogeneous set per kind (TLC cannot compare answers of different shapes), concatenated
 QTable ==
      (IF "c04" \in QKinds THEN SetToSeq(QByHash) \o SetToSeq(QByHeight) \o SetToSeq(QTips) \o SetToSeq(QAnc) \o SetToSeq(QCommon)
@@ -54,6 +71,7 @@ QTable ==
   \o (IF "c02" \in QKinds THEN SetToSeq(QVerify) ELSE <<>>)
   \o (IF "c08" \in QKinds THEN SetToSeq(QPages) ELSE <<>>)
   \o (IF "c13" \in QKinds THEN SetToSeq(QLoc) \o SetToSeq(QGetH) ELSE <<>>)
+  \o (IF "c17" \in QKinds THEN SetToSeq(QExport) \o (IF TipH >= 1 THEN SetToSeq(QImport) ELSE <<>>) ELSE <<>>)
 
 
 \* the (smaller) table recorded after every step when StepQ is not empty
